@@ -222,7 +222,7 @@ class Source:
             fn_name, self._line_of(o + 1 + s0), self._line_of(o + 1 + e0), ' '.join(header.split())[:80]))
         return item
 
-    def block_slice(self, open_re, header, name, within_fn=None):
+    def block_slice(self, open_re, header, name, within_fn=None, wrap=None):
         """R6 (block form): the statements of the block opened at the end of the line matching open_re
         (e.g. a match arm `Self::Subshell(..) => {`), wrapped as `header { <bytes> }`.  within_fn restricts the search to one fn."""
         ms = list(re.compile(open_re, re.M).finditer(self.text))
@@ -240,6 +240,8 @@ class Source:
         seg = self.text[o + 1:e - 1].strip('\n').rstrip()
         ind = len(re.match(r'[ \t]*', seg).group(0))
         txt = '\n'.join((l[ind - 4:] if l.startswith(' ' * (ind - 4)) else l) for l in seg.split('\n')) if ind >= 4 else indent(seg, 4 - ind)
+        if wrap:     # the block is an expression (e.g. a match arm's value): `header { PRE <bytes> POST }`
+            txt = wrap[0] + '\n' + txt + '\n' + wrap[1]
         item = Item(name, self.rel, self._line_of(o + 1), header + ' {\n' + txt + '\n}')
         item.orig = seg
         item.sha256 = hashlib.sha256(seg.encode()).hexdigest()
@@ -638,7 +640,7 @@ class Item:
         t = self.text
         n = 0
         for rx, rep in [(r"Cow<'\w+, str>", 'String'), (r'\bCow::Owned\(', '('), (r'\bCow::Borrowed\(([^()]*)\)', r'(\1).vx_owned()'),
-                        (r'\.into\(\)', '.vx_owned()')]:
+                        (r'\.into\(\)', '.vx_owned()'), (r'\.into_owned\(\)', '.vx_owned()')]:
             t, k = re.subn(rx, rep, t)
             n += k
         self.text = t
